@@ -51,3 +51,17 @@ func (c *Cache) SimReferencesUnlocked() map[schema.GroupVersionKind][]OwnerRefer
 	}
 	return out
 }
+
+// SimRecorder is the metrics seam (production passes a Prometheus recorder).
+type SimRecorder interface {
+	RecordDynamicCacheInformers(total int)
+	RecordDynamicCacheObjects(gvk schema.GroupVersionKind, count int)
+}
+
+// NewCacheForSimWithRecorder is NewCacheForSim with a metrics recorder, so that the
+// sampling done at the end of Watch and Free runs as in production.
+func NewCacheForSimWithRecorder(scheme *runtime.Scheme, im SimInformerMap, rec SimRecorder) *Cache {
+	c := NewCacheForSim(scheme, im)
+	c.recorder = rec
+	return c
+}
